@@ -16,6 +16,9 @@ enum ProbeSpec {
     PreRun(u64),
     /// add_event(now - back) inside the handler of event `at` (back = 0: must be accepted)
     InHandler(u32, u64),
+    /// start, dispatch_n_events(k), then add_event at absolute time T (>= the paused time)
+    /// from outside, then run to the end
+    PausedAdd(usize, u64),
 }
 
 /// (n, t, largest program size)
@@ -119,6 +122,32 @@ fn run_case(cfg: RtCfg, prog: &Arc<Program>, probe: ProbeSpec) -> Result<u64, St
             let l = log.lock().unwrap().clone();
             check_log(cfg.start, prog, &l, end.as_nanos(), None).map(|()| vcheck::fp(&l))
         }
+        ProbeSpec::PausedAdd(k, at) => {
+            let b = build(cfg, prog, None, None);
+            let log = b.log.clone();
+            let mut rt = b.rt;
+            let r = quiet_catch(move || -> Result<u128, String> {
+                rt.start();
+                rt.dispatch_n_events(k);
+                let now = rt.sim_time().as_nanos();
+                if u128::from(at) < now {
+                    return Ok(u128::MAX); // not applicable at this cut
+                }
+                let rtm = &mut rt;
+                if std::panic::catch_unwind(std::panic::AssertUnwindSafe(|| rtm.add_event(Ev(PROBE_ID), ns(at)))).is_err() {
+                    return Err(format!("add_event at {at}ns was rejected while the paused runtime reports {now}ns"));
+                }
+                rt.dispatch_all();
+                let (_, end, _) = rt.finish().map_err(|e| format!("finish returned an error: {e:?}"))?;
+                Ok(end.as_nanos())
+            })
+            .map_err(|m| format!("stepping panicked: {m}"))??;
+            let l = log.lock().unwrap().clone();
+            if r == u128::MAX {
+                return Ok(0);
+            }
+            check_log(cfg.start, prog, &l, r, Some((PROBE_ID, u128::from(at)))).map(|()| vcheck::fp(&l))
+        }
         ProbeSpec::InHandler(at, back) => {
             let b = build(cfg, prog, None, Some(Probe { at, back }));
             let log = b.log.clone();
@@ -164,6 +193,7 @@ fn case_json(cfg: RtCfg, prog: &Program, probe: ProbeSpec) -> Value {
         ProbeSpec::None => json!(null),
         ProbeSpec::PreRun(b) => json!({"pre_run_back_ns": b}),
         ProbeSpec::InHandler(at, b) => json!({"in_handler_of": at, "back_ns": b}),
+        ProbeSpec::PausedAdd(k, at) => json!({"paused_after_events": k, "add_at_ns": at}),
     };
     json!({"n": cfg.n, "t_ns": cfg.t, "start_ns": cfg.start, "program": prog.to_json(), "probe": p})
 }
@@ -175,7 +205,7 @@ impl Property for C02 {
     fn rule(&self, tier: Tier) -> String {
         format!(
             "every event program (forest) with 1..={} events (per configuration: third number), delays from {{0,1,t-1,t,t+1,Y,Y+1}}, x start time in {{0,5,Y+1}} x (n,t,max events) in {:?}, run on the real Runtime; \
-             per program: one plain run + a probe add_event(now - d), d in {{0 (must be accepted), 1, t, start}}, placed before run and inside every handler; \
+             per program: one plain run + a probe add_event(now - d), d in {{0 (must be accepted), 1, t, start}}, placed before run and inside every handler; for programs of up to 3 (quick) / 4 (thorough) events also: start, dispatch_n_events(k) for every k, add_event from outside at every time around the program's timestamps that is not in the past of the paused runtime, run to the end (clock and timestamps must stay right); \
              a case is one (program, start, config, probe placement) and all are distinct by construction; non-trivial = at least 2 events or a probe",
             tier.pick(4, 5),
             cfgs(tier)
@@ -188,7 +218,7 @@ impl Property for C02 {
         ]
     }
     fn required_features(&self, _tier: Tier) -> Vec<&'static str> {
-        vec!["plain_run", "probe_past_before_run", "probe_past_in_handler", "probe_now_in_handler", "program_with_zero_delay_child", "program_spanning_a_year"]
+        vec!["plain_run", "probe_past_before_run", "probe_past_in_handler", "probe_now_in_handler", "program_with_zero_delay_child", "program_spanning_a_year", "external_add_while_paused"]
     }
     fn explore(&self, ctx: &mut Ctx) {
         for (n, t, maxm) in cfgs(ctx.tier) {
@@ -222,6 +252,26 @@ impl Property for C02 {
                                 probes.push(ProbeSpec::InHandler(at, b));
                             }
                         }
+                        // stepping: cut after k events, add an event from outside at every time around
+                        // the program's timestamps that is not in the paused runtime's past
+                        if m <= ctx.tier.pick(3, 4) {
+                            let mut ts: Vec<u64> = scheduled_times(start, &prog).iter().map(|t| *t as u64).collect();
+                            ts.sort_unstable();
+                            ts.dedup();
+                            let mut cands = vec![];
+                            for &x in &ts {
+                                cands.extend([x.saturating_sub(1), x, x + 1]);
+                            }
+                            cands.sort_unstable();
+                            cands.dedup();
+                            for k in 0..m {
+                                for &c in &cands {
+                                    if c >= start {
+                                        probes.push(ProbeSpec::PausedAdd(k, c));
+                                    }
+                                }
+                            }
+                        }
                         for pr in probes {
                             ctx.out.evaluations += 1;
                             ctx.out.traces += 1;
@@ -235,6 +285,7 @@ impl Property for C02 {
                                 ProbeSpec::PreRun(_) => ctx.hit("probe_past_before_run"),
                                 ProbeSpec::InHandler(_, 0) => ctx.hit("probe_now_in_handler"),
                                 ProbeSpec::InHandler(..) => ctx.hit("probe_past_in_handler"),
+                                ProbeSpec::PausedAdd(..) => ctx.hit("external_add_while_paused"),
                             }
                             if zero_child {
                                 ctx.hit("program_with_zero_delay_child");
@@ -264,6 +315,8 @@ impl Property for C02 {
         let p = &case["probe"];
         let probe = if p.is_null() {
             ProbeSpec::None
+        } else if let Some(k) = p.get("paused_after_events") {
+            ProbeSpec::PausedAdd(k.as_u64().unwrap() as usize, p["add_at_ns"].as_u64().unwrap())
         } else if let Some(b) = p.get("pre_run_back_ns") {
             ProbeSpec::PreRun(b.as_u64().unwrap())
         } else {
